@@ -45,6 +45,14 @@ func (u User) Greeting() string      { return "hi " + u.Name }
 func (u *User) PtrName() string      { return "ptr:" + u.Name }
 func (u User) Twice(s string) string { return s + s }
 
+// ValRecv has a method with a value receiver.
+type ValRecv struct{ N int }
+
+func (v ValRecv) Hello() string { return "hello" }
+
+// IfuncVals are the values the "ifunc" functions hand back in an interface{}.
+var IfuncVals = []interface{}{0, "", false, 1, "x", true, nil, 2.5, []int{}, []int{4, 5}}
+
 // KindStrg is of kind string and a fmt.Stringer at once: what it says is what counts, as for every Stringer.
 type KindStrg string
 
@@ -168,6 +176,8 @@ func Build(r Recipe) interface{} {
 		return r.B
 	case "bytes":
 		return []byte(r.S)
+	case "straddle": // I bytes of filler, then S: with I just below a multiple of 4096 the first character of S straddles a piece boundary
+		return strings.Repeat("a", int(r.I)) + r.S
 	case "longstring": // S repeated and cut to exactly I bytes
 		if r.S == "" {
 			return ""
@@ -309,6 +319,23 @@ func Build(r Recipe) interface{} {
 		return &PlainRanger{Items: append([]string{}, r.Ss...)}
 	case "stringer":
 		return Strg{S: r.S}
+	case "ifunc": // a Go function declared to return interface{}; what it returns is IfuncVals[I]
+		val := IfuncVals[r.I]
+		return func() interface{} { return val }
+	case "nilfunc-string":
+		return (func(string) string)(nil)
+	case "funcholder": // a struct with a func-typed field that is nil
+		return struct{ F func(string) string }{}
+	case "arr4func": // the slice it is handed must have four elements to convert
+		return func(p *[4]int) int { return p[0] }
+	case "rangerholder": // a struct with a nil field of type jet.Ranger
+		return struct{ R jet.Ranger }{}
+	case "chan<- int":
+		return (chan<- int)(make(chan int, 1))
+	case "map[any]int":
+		return map[interface{}]int{"a": 1}
+	case "nil*valrecv": // a nil pointer whose type has a method with a value receiver
+		return (*ValRecv)(nil)
 	case "kindstringer": // a value of kind string whose String method says something else than the string it is made of
 		return KindStrg("underlying:" + r.S)
 	case "*stringer":
